@@ -26,21 +26,38 @@ MANIFEST = dict(
          "claim for arbitrary text rests on an exploration (grammar-generated programs, mutations of examples/ and "
          "modules/, extreme literals, operator runs, deep nesting, random Unicode) run through interpret + diagnostic "
          "rendering under catch_unwind and a watchdog in child processes, in the checked (dev) profile. Machine-checked "
-         "(Coq) only for the modelled arithmetic cores: the checked exponent path (DType::try_power / "
-         "Ratio::checked_mul) returns None exactly where the unchecked path panics and otherwise the same in-range "
-         "result (C08_checked_paths_total, C08_checked_mul_in_range); the factorial loop terminates for every order "
-         ">= 1 (C08_factorial_terminates); kernel-computed witnesses show that the unchecked paths do panic "
-         "(C08_power_overflow_refuted: 1e30*1e30, 2^126+2^126) and that 65536 `!` truncate the order to 0 "
-         "(C08_factorial_truncation_refuted). Seven classes of crashing inputs are OPEN findings (known_findings.json), six "
-         "further ones found by this exploration were fixed in numbat.",
+         "(Coq) only for the modelled arithmetic cores (Ratio<i128> mul/add with lcm, DType::power/try_power, "
+         "multiply/try_multiply/canonicalize, UnitFactor::power, factor merging): the checked paths never panic for any "
+         "factors and exponents (C08_checked_paths_total); the unchecked operations are the checked ones with 'overflow' "
+         "turned into a panic, i.e. they panic exactly where the checked ones report an error and agree otherwise "
+         "(C08_unchecked_is_checked_plus_panic, C08_ratio_ops, C08_checked_mul_in_range); the factorial loop terminates "
+         "for every order >= 1 (C08_factorial_terminates); one kernel-computed witness per open arithmetic finding "
+         "(C08_power_overflow_refuted: 1e30*1e30, 2*2^126, 2^126+2^126; C08_lcm_overflow_refuted: lcm(2^100,3^70); "
+         "C08_factorial_truncation_refuted: 65536 `!` -> order 0; C08_comparison_nan_refuted: inf/inf = NaN on primitive "
+         "floats). Seven classes of crashing inputs are OPEN findings (known_findings.json), nine further defects found by "
+         "this exploration were fixed in numbat.",
     design_ref="DESIGN.md §6 C08, §7 #4-#7; design/misc.md",
     note="Trusted: Coq kernel; Overflow/Model.v as a description of num-rational 0.4.2 and math.rs; the exploration "
          "harness (harness/src/crash.rs). An exploration finding nothing is not a proof of absence.",
     technique="Coq proofs about the panicking arithmetic cores + crash/hang exploration under catch_unwind and a watchdog",
 )
 
-THEOREMS = ["C08_checked_paths_total", "C08_checked_mul_in_range", "C08_factorial_terminates",
-            "C08_power_overflow_refuted", "C08_factorial_truncation_refuted"]
+THEOREMS = ["C08_checked_paths_total", "C08_unchecked_is_checked_plus_panic", "C08_ratio_ops", "C08_checked_mul_in_range",
+            "C08_factorial_terminates", "C08_power_overflow_refuted", "C08_lcm_overflow_refuted",
+            "C08_factorial_truncation_refuted", "C08_comparison_nan_refuted"]
+# C08_comparison_nan_refuted is computed on the kernel's primitive binary64 floats: Print Assumptions lists the
+# primitive type and operations it uses (they are primitives of the kernel, not axioms of this development)
+_PRIMS = ("PrimFloat.float PrimFloat.mul PrimFloat.div PrimFloat.eqb PrimFloat.compare PrimFloat.ldshiftexp PrimFloat.next_up "
+          "PrimFloat.of_uint63 PrimFloat.sqrt PrimFloat.sub PrimFloat.opp PrimFloat.ltb PrimFloat.leb PrimFloat.add PrimFloat.abs "
+          "PrimFloat.normfr_mantissa PrimFloat.next_down PrimFloat.frshiftexp PrimFloat.classify Leibniz.eqb "
+          "PrimInt63.compares PrimInt63.diveucl_21 PrimInt63.addmuldiv PrimInt63.addcarryc PrimInt63.tail0 PrimInt63.head0 "
+          "PrimInt63.subc PrimInt63.mulc PrimInt63.mods PrimInt63.lxor PrimInt63.ltsb PrimInt63.lesb PrimInt63.land PrimInt63.divs "
+          "PrimInt63.addc PrimInt63.sub PrimInt63.mul PrimInt63.mod PrimInt63.ltb PrimInt63.lsr PrimInt63.lsl PrimInt63.lor "
+          "PrimInt63.leb PrimInt63.int PrimInt63.eqb PrimInt63.div PrimInt63.asr PrimInt63.add PrimInt63.subcarryc "
+          "PrimInt63.diveucl PrimInt63.compare").split()
+# Print Assumptions lists the primitives a theorem uses by their short names; coqchk (thorough tier) lists every
+# primitive of the loaded PrimFloat/PrimInt63 libraries.  They are kernel primitives, allowed for this check only.
+ALLOWED_AXIOMS = ["float", "mul", "div", "eqb", "compare"] + _PRIMS
 
 CASE_TIMEOUT_MS = 15000
 
@@ -147,6 +164,9 @@ SHAPES = {
     "power-or-root": lambda s: re.search(r"\^|\*\*|[⁰¹²³⁴⁵⁶⁷⁸⁹]|sqrt|cbrt|sqr", s) is not None,
     "bang-run-multiple-of-65536": lambda s: any(n >= 65536 and n % 65536 == 0 for n in bang_runs(s)),
     "nesting-at-least-1000": lambda s: max_nesting(s) >= 1000,
+    "count-recursion-with-non-finite-argument": lambda s: re.search(
+        r"\b(range|rand_binom|_poisson|rand_poisson|rand_geom|linspace|take|drop|str_repeat|catalan|fibonacci|binom|"
+        r"falling_factorial|factorial)\s*\([^()]*(\binf\b|NaN)", s) is not None,
     "question-mark-in-string-interpolation": lambda s: re.search(r'"[^"]*\{[^}"]*\?', s) is not None,
 }
 
@@ -325,6 +345,65 @@ def soup(rng, n):
     return out
 
 
+FN_SIG_RE = re.compile(r"^fn\s+([^\s(<]+)\s*(?:<[^>]*>)?\s*\(([^)]*)\)", re.M)
+ARG_POOL = {
+    "Scalar": ["0", "1", "-1", "2", "0.5", "-0.5", "1e308", "-1e308", "1e-320", "NaN", "inf", "-inf", "255", "256", "65536",
+               "3.5", "170", "171", "1114111", "1114112", "55296", "-0", "9007199254740993", "18446744073709551616"],
+    "String": ['""', '"a"', '"ä"', '"🙂🙂"', '"abc def"', '"{"', '"%"', '"%Y-%m-%d"', '"%Q"', '"2020-01-01"', '"UTC"',
+               '"0x"', '"1e400"', '"\\n"', '"a" + "b"', 'str_repeat("ab", 1000)'],
+    "Bool": ["true", "false"],
+    "DateTime": ["now()", 'datetime("2020-02-29 12:00 UTC")', "from_unixtime_s(253402207200)", "from_unixtime_s(-377705023201)",
+                 'datetime("0001-01-01 00:00 UTC")', "today()"],
+    "List": ["[]", "[1]", "[1, 2, 3]", "[NaN]", "[inf, -inf]", "[[1], [2]]", '["a", "b"]', "[1 m, 2 cm]", "range(1, 50)", "[true]",
+             "[now()]", "[0, 0, 0]", "[1e308, 1e308]"],
+    "Fn": ["sqrt", "sin", "id", "sqr", "is_nan", "str_length", "len", "head"],
+    "Dim": ["1 m", "0 m", "-1 m", "NaN m", "inf s", "1e308 kg", "1e-320 m", "2.5 cm", "1 m^2", "3 s", "1 deg", "100 %", "1 byte",
+            "0 K", "-300 K", "1 m/s", "1 EiB", "1 Qm", "1 qm^3"],
+}
+
+
+COUNT_RECURSIVE = {"range", "rand_binom", "rand_poisson", "rand_geom", "linspace", "take", "drop", "str_repeat", "catalan",
+                   "fibonacci", "binom", "falling_factorial", "factorial"}
+
+
+def stdlib_signatures():
+    """(name, [parameter types]) of every function of numbat/modules whose parameter list is on one line"""
+    out = []
+    for f in corpus_files():
+        if os.sep + "modules" + os.sep not in f:
+            continue
+        for m in FN_SIG_RE.finditer(open(f, encoding="utf-8").read()):
+            if m.group(1).startswith("_"):
+                continue          # internal helpers are not part of the library's interface
+            params = [p.strip() for p in m.group(2).split(",") if p.strip()]
+            out.append((m.group(1), [(p.split(":", 1)[1].strip() if ":" in p else "?") for p in params]))
+    return out
+
+
+def stdlib_call(rng, sig):
+    """a call of a library function with arguments of (mostly) the declared kinds, chosen from edge values"""
+    name, types = sig
+    everything = [v for vs in ARG_POOL.values() for v in vs]
+
+    def pick(t):
+        if t.startswith("List"):
+            return rng.choice(ARG_POOL["List"])
+        if t.startswith("Fn"):
+            return rng.choice(ARG_POOL["Fn"])
+        if t in ARG_POOL:
+            return rng.choice(ARG_POOL[t])
+        if t == "?" or rng.random() < 0.15:
+            return rng.choice(everything)
+        return rng.choice(ARG_POOL["Dim"] + ARG_POOL["Scalar"])
+    args = [pick(t) for t in types]
+    if name in COUNT_RECURSIVE:
+        # open finding C08-count-recursion-on-non-finite-argument (one instance is in the corpus); every further
+        # instance would only cost a watchdog period; counts of a thousand and more are compute-bound in the debug
+        # profile (str_repeat is quadratic: 55296 repetitions take minutes)
+        args = [a if not (re.search(r"inf|NaN|\d{4,}", a) or HUGE_LITERAL_RE.search(a)) else "3" for a in args]
+    return "%s(%s)" % (name, ", ".join(args))
+
+
 def corpus_files():
     fs = []
     for root in (os.path.join(common.REPO, "examples"), os.path.join(common.REPO, "numbat", "modules")):
@@ -368,7 +447,7 @@ def mutate(rng, text):
 
 def run(chk):
     binary, _ = common.build_harness()
-    proved = chk.prove("Props.C08", THEOREMS, ["theories/Props/C08.vo"])
+    proved = chk.prove("Props.C08", THEOREMS, ["theories/Props/C08.vo"], allowed=ALLOWED_AXIOMS)
     chk.trusted += [
         "Overflow/Model.v describes num-rational 0.4.2 Ratio<i128> mul/add and math.rs factorial by hand; it is not tied to the code by a correspondence "
         "(a panic cannot be diffed against a model value) — its witnesses are replayed on the implementation every run (corpus)",
@@ -395,6 +474,9 @@ def run(chk):
         cases.append((0, mutate(rng, texts[f]), "mutation"))
     for s in soup(rng, 500 if quick else 8000):
         cases.append((rng.choice([0, 1]), s, "soup"))
+    sigs = stdlib_signatures()
+    for _ in range(700 if quick else 12000):
+        cases.append((0, stdlib_call(rng, rng.choice(sigs)), "stdlib-call"))
 
     outs = run_crash(binary, [(m, s) for m, s, _ in cases])
 
@@ -463,7 +545,8 @@ def run(chk):
         "distinct_nontrivial": len({h for f, h in shapes}),
         "rule": "corpus (known crashers and past findings) + extreme literals/operator runs/deep nesting + grammar-generated programs "
                 "(expressions, lets, non-recursive functions, units, dimensions, structs, strings with format specs, lists, date-times) + "
-                "mutations of windows of examples/*.nbt and numbat/modules/**/*.nbt + random Unicode/token soup; each in a clone of a "
+                "mutations of windows of examples/*.nbt and numbat/modules/**/*.nbt + random Unicode/token soup + calls of every library "
+                "function (signatures read from numbat/modules) with edge-value arguments of the declared kinds; each in a clone of a "
                 "prelude session or in a fresh context; distinct = distinct source texts (every text is run through the whole pipeline)",
         "exhaustive": False,
         "families": dict(fam), "outcomes": dict(outcome_hist),
